@@ -36,6 +36,10 @@ type CExec struct {
 	pendingT []*vt.Pipe
 	npipes int
 	hookCloseNext bool
+	closeFirst    bool
+	parkedK       int
+	hookParkNext  bool          // the next Attaching callback does not return until AttachRelease
+	attachHold    chan struct{} // non-nil while an Attaching callback is parked
 	hookHold      chan struct{}
 	holding       bool
 	listeners map[int]mangos.Listener
@@ -94,9 +98,19 @@ func (e *CExec) hook(ev mangos.PipeEvent, p mangos.Pipe) {
 		}
 	}
 	hold := e.hookHold
+	var park chan struct{}
+	if ev == mangos.PipeEventAttaching && e.hookParkNext {
+		e.hookParkNext = false
+		e.attachHold = make(chan struct{})
+		park = e.attachHold
+		e.parkedK = k
+	}
 	e.mu.Unlock()
 	if closeIt {
 		_ = p.Close()
+	}
+	if park != nil {
+		<-park // the application's Attaching callback has not returned yet
 	}
 	if ev == mangos.PipeEventDetached && hold != nil {
 		<-hold // the application's callback has not returned yet
@@ -309,6 +323,9 @@ func (e *CExec) Conn(l int, mode string) {
 		if mode == "hookclose" {
 			e.hookCloseNext = true
 		}
+		if mode == "hookpark" {
+			e.hookParkNext = true
+		}
 		e.mu.Unlock()
 		if mode == "refuse" {
 			e.proto.RefuseNext = true
@@ -410,6 +427,23 @@ func (e *CExec) HookRelease() {
 		return nil
 	})
 }
+func (e *CExec) AttachParked() bool {
+	e.mu.Lock()
+	defer e.mu.Unlock()
+	return e.attachHold != nil
+}
+func (e *CExec) AttachRelease() {
+	e.Op("attachrelease", func() []cev {
+		e.mu.Lock()
+		if e.attachHold != nil {
+			close(e.attachHold)
+			e.attachHold = nil
+		}
+		e.hookParkNext = false
+		e.mu.Unlock()
+		return nil
+	})
+}
 func (e *CExec) Sleep(ms int) {
 	e.Op(fmt.Sprintf("sleep %d", ms), func() []cev { time.Sleep(time.Duration(ms) * time.Millisecond); return nil })
 }
@@ -436,7 +470,17 @@ func (e *CExec) Finish() {
 	if e.hookHold != nil {
 		e.HookRelease()
 	}
-	e.SockClose()
+	if e.AttachParked() && e.closeFirst {
+		// close the socket while a pipe is still inside its Attaching callback, then let the callback return
+		e.SockClose()
+		e.AttachRelease()
+		e.Op("sleep 0", func() []cev { return nil })
+	} else {
+		if e.AttachParked() {
+			e.AttachRelease()
+		}
+		e.SockClose()
+	}
 	for d := range e.dialers {
 		if td := vt.T.Dialer(e.addr("d", d)); td != nil {
 			for i := 0; i < 4; i++ {
